@@ -50,7 +50,10 @@ TNext == /\ l < Len(Hs[h].events)
                 o == NormObs(e.obs) IN
             /\ st' = o.post
             \* (where the properties are silent the history continues from what the code did)
-            /\ xst' = IF AnyDontCare(e.msg) THEN o.post ELSE Run(xst, e.msg, e.faults).post
+            \* (... and a transaction the code refused without effect establishes nothing)
+            /\ xst' = IF AnyDontCare(e.msg) THEN o.post
+                      ELSE IF ResOf(o) # "ok" /\ o.post = st THEN xst
+                      ELSE Run(xst, e.msg, e.faults).post
             /\ hist' = HistExtend(hist, ObsOut(e, o))
             /\ last' = [msg |-> e.msg, faults |-> e.faults, obs |-> o]
 
